@@ -211,9 +211,37 @@ def ambiguous(orc: Any, *units: Any) -> bool:
     return False
 
 
+REDECLARED_SRC = '''
+from measured import Length
+Ra, Rb, Rc = (Length.unit(f"c05 redeclared {i}", f"c05r{i}") for i in "abc")
+Ra.equals(2 * Rb)
+Rb.equals(8 * Rc)
+_ = (1 * Ra).in_unit(Rb), (1 * Rb).in_unit(Ra), (1 * Ra).in_unit(Rc)     # conversions made under the first declaration
+Ra.equals(4 * Rb)                                                          # the declaration is corrected
+'''
+
+
 def worker(task: Tuple) -> Dict[str, Any]:
     mode, items = task
     acc = work.Acc()
+    if mode == "redeclared":
+        # a pair declared, used, and declared again with another ratio: afterwards conversion must be the
+        # invertible, route-independent scaling of the declarations as they now stand
+        import measured  # noqa
+
+        env: Dict[str, Any] = {}
+        exec(REDECLARED_SRC, env)
+        with symnum.Shims():
+            for item in items:
+                us = [env[n] for n in item]
+                lab = "redeclared:" + "->".join(item)
+                for kind in ("float", "dec"):
+                    if len(us) == 2:
+                        check_pair(acc, us[0], us[1], kind, 1e-12, lab, list(item), REDECLARED_SRC)
+                    else:
+                        check_triple(acc, us[0], us[1], us[2], kind, 1e-12, lab, list(item), REDECLARED_SRC)
+        acc.sample({"family": "redeclared", "item": items[0]})
+        return acc.finish()
     if mode == "synthetic":
         import measured  # noqa
         from engine import oracle as om
@@ -366,6 +394,9 @@ def main(tier: str, selftest_cases: int = 0) -> int:
     results = par.run("props.c05", "worker", tasks)
     syn = [tuple(p) for p in cc.SYNTHETIC_PAIRS] + SYN_TRIPLES
     results += par.run("props.c05", "worker", [("synthetic", ch) for ch in par.chunks(syn, 4)],
+                       maxtasksperchild=1)
+    results += par.run("props.c05", "worker",
+                       [("redeclared", [("Ra", "Rb"), ("Rb", "Ra"), ("Ra", "Rb", "Rc"), ("Rc", "Rb", "Ra")])],
                        maxtasksperchild=1)
     work.merge(rep, results)
     route_matrix(rep, [c for r in results for c in r.get("coeffs", [])])
